@@ -86,10 +86,11 @@ impl<W: AsyncWrite + Unpin + Send + Sync> AsyncWritePacket for W {
 
     async fn write_text_component(&mut self, str: &str) -> Result<(), Error> {
         if !str.starts_with('{') {
-            // writes a TAG_String (0x08) TextComponent
+            // writes a TAG_String (0x08) TextComponent (NBT strings are Java "modified UTF-8")
+            let bytes = cesu8::to_java_cesu8(str);
             self.write_u8(0x08).await?;
-            self.write_u16(str.len() as u16).await?;
-            self.write_all(str.as_bytes()).await?;
+            self.write_u16(bytes.len() as u16).await?;
+            self.write_all(&bytes).await?;
             return Ok(());
         }
 
